@@ -5,12 +5,17 @@
 // (compared with the extracted Gallina model) and evaluates the property without the model:
 //   kind "fmt-spec": a reference renderer written from the documented grammar
 //                    ([0-9]+)?(:0?[0-9]*[bcdioXx]?)?  (std::regex + snprintf),
+//   kind "fmt-owns":  what a fmt object stores for an rvalue argument (type traits: must be a value), and fmt
+//                    objects built from rvalue arguments that are rendered LATER (returned from a noinline
+//                    helper / kept in a variable, stack clobbered in between) against the reference renderer,
 //   kind "logger":   concatenation of the chunks == the appended text, every chunk <= Limit-1,
 //   and the sanitizers (ASan: exact-size blocks; UBSan: signed overflow, array bounds).
 // Case lines: see comp/fmt/driver.ml.
 #include <climits>
 #include <optional>
 #include <regex>
+#include <tuple>
+#include <type_traits>
 #include "vharness.hpp"
 #include <frg/formatting.hpp>
 #include <frg/logging.hpp>
@@ -120,6 +125,74 @@ void call_pack(Run &run, const std::vector<AV> &a) {
 	case 3: call<3, 3>(run, a, 0); break;
 	default: printf("!HARNESS more than 3 arguments\n");
 	}
+}
+
+// ---- fmt objects that outlive the full expression that created them.  The arguments are RVALUES
+// (function results / moved-from locals of a frame that is gone when the object is rendered), so the
+// fmt object must own them; the stack is overwritten before rendering.  Kinds {i U c s v}, 1-2 arguments.
+[[gnu::noinline]] void clobber(int depth) {
+	volatile char pad[3072];
+	for(size_t i = 0; i < sizeof pad; i++) pad[i] = (char)0xA5;
+	if(depth) clobber(depth - 1);
+	asm volatile("" ::: "memory");
+}
+template<typename T> [[gnu::noinline]] T mk(const T &v) { return v; }
+
+template<typename... Ts>
+[[gnu::noinline]] auto make_fmt_ret(frg::string_view view, const std::tuple<Ts...> &vals) {
+	std::tuple<Ts...> local = vals;      // lives in this frame, dead when the caller renders
+	return std::apply([&](auto &...xs) { return frg::fmt(view, std::move(xs)...); }, local);
+}
+template<typename... Ts>
+void run_deferred(bool ret, frg::string_view view, ByteSink &sink, const std::tuple<Ts...> &vals) {
+	if(ret) {
+		auto f = make_fmt_ret(view, vals);
+		clobber(3);
+		frg::format(f, sink);
+	} else {
+		std::apply([&](auto &...xs) {
+			auto f = frg::fmt(view, mk(xs)...);      // temporaries die at the end of this full expression
+			clobber(3);
+			{ volatile long a = mk(0x5a5a5a5a5a5a5a5al), b = mk(0x6b6b6b6b6b6b6b6bl), c = mk(0x7c7c7c7c7c7c7c7cl); (void)a; (void)b; (void)c; }
+			frg::format(f, sink);
+		}, vals);
+	}
+}
+template<int D, typename Run, typename... Ts>
+void build(Run &run, const std::vector<AV> &a, size_t i, std::tuple<Ts...> t) {
+	if(i == a.size()) { run(t); return; }
+	if constexpr (sizeof...(Ts) < D) {
+		const AV &x = a[i];
+		switch(x.kind) {
+		case 'i': build<D>(run, a, i + 1, std::tuple_cat(t, std::make_tuple((int)x.i))); break;
+		case 'U': build<D>(run, a, i + 1, std::tuple_cat(t, std::make_tuple((unsigned long)x.u))); break;
+		case 'c': build<D>(run, a, i + 1, std::tuple_cat(t, std::make_tuple((char)x.i))); break;
+		case 's': build<D>(run, a, i + 1, std::tuple_cat(t, std::make_tuple((const char *)x.blk.p))); break;
+		case 'v': build<D>(run, a, i + 1, std::tuple_cat(t, std::make_tuple(frg::string_view{x.blk.p, x.blk.n}))); break;
+		default: printf("!HARNESS unsupported argument kind %c in a deferred pack\n", x.kind);
+		}
+	} else printf("!HARNESS more than %d arguments in a deferred pack\n", D);
+}
+
+// what a fmt object stores for its arguments, read off its type
+template<typename T> struct stored;
+template<typename... Ts> struct stored<frg::detail_::fmt_impl<Ts...>> { using first = std::tuple_element_t<0, std::tuple<Ts...>>; };
+template<typename T> const char *storage_name() {
+	return std::is_rvalue_reference_v<T> ? "rvalue-ref" : std::is_lvalue_reference_v<T> ? "ref" : "value";
+}
+void print_traits() {
+	frg::string_view view{"{}", 2};
+	int lv = 1; frg::string_view lsv{"x", 1};
+	using R1 = typename stored<decltype(frg::fmt(view, 1))>::first;
+	using R2 = typename stored<decltype(frg::fmt(view, frg::string_view{"x", 1}))>::first;
+	using R3 = typename stored<decltype(frg::fmt(view, mk((const char *)"x")))>::first;
+	using L1 = typename stored<decltype(frg::fmt(view, lv))>::first;
+	using L2 = typename stored<decltype(frg::fmt(view, lsv))>::first;
+	printf("stores rvalue int=%s view=%s cstr=%s lvalue int=%s view=%s\n", storage_name<R1>(), storage_name<R2>(), storage_name<R3>(),
+		storage_name<L1>(), storage_name<L2>());
+	if(std::is_reference_v<R1> || std::is_reference_v<R2> || std::is_reference_v<R3>)
+		vh::oracle("fmt-owns", "fmt() stores an rvalue argument by reference (int: %s, string_view: %s, const char *: %s): a fmt object that is rendered after the "
+			"full expression that created it (returned from a function, kept in a variable) reads dead temporaries", storage_name<R1>(), storage_name<R2>(), storage_name<R3>());
 }
 
 // ---- the reference renderer (independent of the model and of frigg): documented grammar
@@ -275,11 +348,14 @@ void run_group(const vh::Lines &ls) {
 	std::string fmt; bool have_fmt = false;
 	std::vector<AV> args;
 	size_t limit = 0; std::vector<LogOp> ops; int endlogs = 0; bool after_end = false;
+	int defer = 0;   // 1 = returned from a noinline helper, 2 = kept in a variable
 	for(auto &l : ls) {
 		auto t = vh::split(l);
 		if(t.empty()) continue;
 		if(t[0] == "fmt" && t.size() == 2) { fmt = unhex(t[1]); have_fmt = true; }
 		else if(t[0] == "arg" && t.size() == 3) parse_arg(t[1], t[2], args);
+		else if(t[0] == "defer" && t.size() == 2) defer = t[1] == "ret" ? 1 : 2;
+		else if(t[0] == "traits") { print_traits(); return; }
 		else if(t[0] == "log" && t.size() == 2) limit = vh::u64(t[1]);
 		else if(t[0] == "put" && t.size() == 3) { LogOp o; o.op = "put"; parse_arg(t[1], t[2], o.args); ops.push_back(std::move(o)); if(endlogs) after_end = true; }
 		else if(t[0] == "putf" && t.size() >= 2) {
@@ -295,8 +371,10 @@ void run_group(const vh::Lines &ls) {
 		switch(limit) {
 		case 2: run_logger<2>(ops, plain); break;
 		case 3: run_logger<3>(ops, plain); break;
+		case 7: run_logger<7>(ops, plain); break;
 		case 8: run_logger<8>(ops, plain); break;
-		case 64: run_logger<64>(ops, plain); break;
+		case 16: run_logger<16>(ops, plain); break;
+		case 128: run_logger<128>(ops, plain); break;
 		default: printf("!HARNESS unsupported Limit %zu\n", limit);
 		}
 		return;
@@ -306,16 +384,18 @@ void run_group(const vh::Lines &ls) {
 	frg::string_view view{f.p, f.n};
 	ByteSink sink; bool asserted = false; std::string expr;
 	auto run = [&](auto &...xs) { frg::format(frg::fmt(view, xs...), sink); };
-	try { call_pack(run, args); }
+	auto drun = [&](auto &tup) { run_deferred(defer == 1, view, sink, tup); };
+	try { if(defer) build<2>(drun, args, 0, std::tuple<>{}); else call_pack(run, args); }
 	catch(vh::AssertStop &a) { asserted = true; expr = assert_expr(a); }
 	if(asserted) printf("end assert %s\n", expr.c_str()); else printf("end ok\n");
 	printf("out %s\n", hex(sink.s).c_str());
 	RefResult r = ref_fmt(fmt, args);
+	const char *okind = defer ? "fmt-owns" : "fmt-spec";
 	if(r.asserted != asserted)
-		vh::oracle("fmt-spec", "fmt=\"%s\": frigg %s (output \"%s\"), the documented grammar %s (\"%s\")", esc(fmt).c_str(),
+		vh::oracle(okind, "fmt=\"%s\": frigg %s (output \"%s\"), the documented grammar %s (\"%s\")", esc(fmt).c_str(),
 			asserted ? "stopped in FRG_ASSERT" : "completed", esc(sink.s).c_str(), r.asserted ? "stops in the assertion hook" : "completes", esc(r.out).c_str());
 	else if(!asserted && r.out != sink.s)
-		vh::oracle("fmt-spec", "fmt=\"%s\": frigg \"%s\" (%zu bytes), documented grammar gives \"%s\" (%zu bytes)", esc(fmt).c_str(),
+		vh::oracle(okind, "%sfmt=\"%s\": frigg \"%s\" (%zu bytes), documented grammar gives \"%s\" (%zu bytes)", defer ? "fmt object rendered after the expression that created it from rvalue arguments: " : "", esc(fmt).c_str(),
 			esc(sink.s).c_str(), sink.s.size(), esc(r.out).c_str(), r.out.size());
 }
 
